@@ -1250,7 +1250,15 @@ func (rn *wireRunner) hooks() server.Hooks {
 				case "reject":
 					req.Reject(f, wireCodeErr(a.List[1].Int()))
 				case "qos":
-					req.GrantQoS(f, byte(a.List[1].Int()))
+					// a hook may edit the subscription in place (GrantQoS) or put an edited copy into the request:
+					// both are the hook's verdict (alternated by the length of the filter, the model sees no difference)
+					if e := req.Subscriptions[f]; e != nil && e.Sub != nil && len(f)%2 == 1 {
+						cp := *e.Sub
+						cp.QoS = byte(a.List[1].Int())
+						e.Sub = &cp
+					} else {
+						req.GrantQoS(f, byte(a.List[1].Int()))
+					}
 				}
 			}
 			return ret
